@@ -6,7 +6,7 @@ import impl, gen, oracle
 from impl import quiet, Metric
 from common import close, score_to_float
 
-RULE = ("pairs of non-empty binary masks in 1-3-D: single voxels, one-voxel-thick lines/sheets, rings/shells with enclosed "
+RULE = ("through the evaluator with metric lists in which a metric is named twice before ASSD; pairs of non-empty binary masks in 1-3-D: single voxels, one-voxel-thick lines/sheets, rings/shells with enclosed "
         "cavities, objects on the array border, nested and disjoint objects, far-apart objects (offsets up to 600, and single voxels 50000-70000 apart, along one axis); every case also embedded at a random offset in a larger array and cropped tight; with and without "
         "label selection; non-trivial = the two borders differ and an object is thin, has a cavity, or touches the array border")
 
@@ -176,9 +176,14 @@ def pipeline_cases(ctx, n):
         ref[H - 2:H, W - 3:W - 1] = labs[1]
         pred[H - 2:H, W - 3:W - 1] = labs[1]
         ref, pred = ref.astype(dt), pred.astype(dt)
-        cfg = E.mk_cfg("MATCHED", ["ASSD", "IOU"])
+        mlist = rng.choice([["ASSD", "IOU"], ["ASSD", "IOU"], ["IOU", "ASSD"], ["DSC", "DSC", "ASSD", "IOU"], ["IOU", "DSC", "IOU", "ASSD"],
+                            ["DSC", "IOU", "DSC", "IOU", "ASSD"], ["RVD", "ASSD", "ASSD"], ["ASSD"]])
+        cfg = E.mk_cfg("MATCHED", mlist)
+        if len(set(mlist)) != len(mlist):
+            ctx.count("pipeline_metric_named_twice")
         res = E.run_impl(cfg, pred, ref)
-        inp = {"shape": [H, W], "dtype": str(np.dtype(dt)), "ref": gen.arr_json(ref), "pred": gen.arr_json(pred), "sel": None, "pipeline": True, "src": f"pipe{k}"}
+        inp = {"shape": [H, W], "dtype": str(np.dtype(dt)), "ref": gen.arr_json(ref), "pred": gen.arr_json(pred), "sel": None, "pipeline": True,
+               "metrics": mlist, "src": f"pipe{k}"}
         ctx.case(inp, True)
         ctx.count("pipeline_assd")
         if isinstance(res, str):
@@ -209,7 +214,7 @@ def replay(ctx, rec):
         dt = np.dtype(i["dtype"])
         ref = np.array(i["ref"], dtype=dt).reshape(i["shape"])
         pred = np.array(i["pred"], dtype=dt).reshape(i["shape"])
-        res = E.run_impl(E.mk_cfg("MATCHED", ["ASSD", "IOU"]), pred, ref)
+        res = E.run_impl(E.mk_cfg("MATCHED", i.get("metrics", ["ASSD", "IOU"])), pred, ref)
         ctx.case(i, True)
         labs = sorted(set(np.unique(ref).tolist()) - {0})
         want = sorted(oracle.assd_brute(ref == l, pred == l) for l in labs)
